@@ -915,6 +915,33 @@ fn run_c18_case(rep: &mut Report, ws: &Workspace, case_seed: u64) {
                 rp.clone(),
             );
         }
+        // "innermost shadowing outer": the item offered under a spelling must be the binding
+        // visible at the hole - a local for a local, a function for a function - also when the
+        // same spelling is bound further out
+        for (label, d) in &h.visible {
+            let Some(its) = got.get(label) else { continue };
+            let want = match ws.decls[*d].kind {
+                SymKind::Function => Some(ide::CompletionItemKind::Function),
+                SymKind::Variant => Some(ide::CompletionItemKind::Variant),
+                SymKind::Param | SymKind::Let | SymKind::ClauseVar | SymKind::LambdaParam | SymKind::UseVar | SymKind::AsVar | SymKind::SpreadVar | SymKind::PrefixVar => Some(ide::CompletionItemKind::Param),
+                _ => None,
+            };
+            let Some(want) = want else { continue };
+            let offered: Vec<ide::CompletionItemKind> = its.iter().map(|i| i.kind).filter(|k| *k != ide::CompletionItemKind::Module).collect();
+            if offered.is_empty() {
+                continue;
+            }
+            rep.count("completion_kinds_checked", 1);
+            // a constructor with fields is rendered like a function
+            let ok = offered.contains(&want) || (want == ide::CompletionItemKind::Variant && offered.contains(&ide::CompletionItemKind::Function));
+            if !ok {
+                rep.violate(
+                    format!("completion-offers-another-binding:visible={:?}:offered={:?}", ws.decls[*d].kind, offered[0]),
+                    format!("at hole `{}` the name `{label}` is bound to a {:?}, but the item offered is a {:?} (an outer binding of the same spelling?)", h.name, ws.decls[*d].kind, offered),
+                    rp.clone(),
+                );
+            }
+        }
         for (label, its) in &got {
             // one spelling may legitimately be offered once per kind: a local and a module
             // accessor of the same name are both visible (different namespaces)
